@@ -94,7 +94,11 @@ def _matrix_src():
             "as": st.sampled_from(["list_bool", "array_bool", "array_uint8", "array_native", "list"]),
             "rows": st.lists(st.lists(bit, min_size=n, max_size=n), min_size=n, max_size=n),
         })
-    return st.one_of(st.integers(1, 5).flatmap(for_n), st.integers(1, 5).flatmap(for_n), st.integers(2, 5).flatmap(for_n01))
+    # every entry scaled by 2^-40 (exact): an entry is zero only if it is zero
+    tiny = st.integers(1, 5).flatmap(for_n).map(lambda d: dict(d, rows=[[v * 2.0 ** -40 for v in r] for r in d["rows"]],
+                                                               **{"as": "list" if d["as"] == "list" else "array"}))
+    return st.one_of(st.integers(1, 5).flatmap(for_n), st.integers(1, 5).flatmap(for_n), st.integers(2, 5).flatmap(for_n01),
+                     tiny)
 
 
 def cases():
